@@ -46,7 +46,7 @@ def cases(tier, seed):
         for pol in POLICIES + ["shared-priority"]:
             n += 1
             out.append(Case("plain", "c01_exactly_once",
-                            ["--scheduler=" + pol, "--threads=16", "--tasks=%d" % (600000 if tier == "quick" else 1500000), "--mode=default", "--perturb=none",
+                            ["--scheduler=" + pol, "--threads=16", "--tasks=600000", "--mode=default", "--perturb=none",
                              "--seed=%d" % (seed * 1000 + n), "--submitters=3", "--depth=2"], cls="%s:sustained" % pol, slots=17, timeout=400))
     # sanitizer flavours as additional oracles on the same program (thorough; a short pass in quick)
     extra = POLICIES if tier == "thorough" else [POLICIES[seed % 8], POLICIES[(seed + 3) % 8]]
